@@ -3,7 +3,7 @@
 From Coq Require Import List Arith Bool Lia ZArith QArith.
 From Coq Require Import String.
 From Verif.C06 Require Import Model.
-From Verif.C01 Require Import Model Proofs Kernel.
+From Verif.C01 Require Import Model Proofs Kernel Printer.
 Import ListNotations.
 Close Scope Q_scope. Open Scope nat_scope.
 
@@ -149,3 +149,24 @@ Proof.
     + destruct Ix; reflexivity.
   - repeat split.
 Qed.
+
+(* ---- concrete syntax: x / (a * b) over nat-coded atoms ------------------------------------------------- *)
+Definition ex_x : cexpr nat := CRead nat (LField 0).
+Definition ex_a : cexpr nat := CRead nat (LField 1).
+Definition ex_b : cexpr nat := CNeg nat (CConst nat 2).
+Definition ex_q : cexpr nat := COp nat ODiv ex_x (COp nat OMul ex_a ex_b).
+Example ex_print : print nat ex_q =
+  [TLP nat; TLoc nat (LField 0); TOp nat ODiv; TLP nat; TLoc nat (LField 1); TOp nat OMul; TMinus nat; TNum nat 2; TRP nat; TRP nat].
+Proof. reflexivity. Qed.
+Example ex_roundtrip : parse nat (print nat ex_q) = Some ex_q.
+Proof. vm_compute. reflexivity. Qed.
+(* without brackets around products the text `(x / a * -2)` is read as (x / a) * -2: a different tree *)
+Example ex_nomul_differs : parse nat (print_nomul nat ex_q) = Some (COp nat OMul (COp nat ODiv ex_x ex_a) ex_b)
+  /\ parse nat (print_nomul nat ex_q) <> Some ex_q.
+Proof. split; [vm_compute; reflexivity | vm_compute; discriminate]. Qed.
+(* left associativity and levels: a - b - c * d / e reads ((a - b) - ((c * d) / e)) *)
+Example ex_levels :
+  parse nat [TNum nat 1; TOp nat OSub; TNum nat 2; TMinus nat; TNum nat 3; TOp nat OMul; TNum nat 4; TOp nat ODiv; TNum nat 5]
+  = Some (COp nat OSub (COp nat OSub (CConst nat 1) (CConst nat 2))
+            (COp nat ODiv (COp nat OMul (CConst nat 3) (CConst nat 4)) (CConst nat 5))).
+Proof. vm_compute. reflexivity. Qed.
